@@ -126,3 +126,55 @@ func ZZ_C01_feefn() {
 		nd.Assert(sumOut.le(sumIn), "fee_not_above_exact_difference")
 	}
 }
+
+// ZZ_C01_inputs: inputs are UTXOs, not input records. A transfer whose 2..3
+// inputs each name one of two existing UTXOs (any combination, arbitrary
+// sequence numbers) and whose references are what GetTxReference returns for
+// them (one entry per input record, carrying the named UTXO's value): the
+// input sanity check, the output check and the fee check together accept only
+// if exact Σ outputs + minFee ≤ the exact sum over the DISTINCT UTXOs named —
+// a UTXO named twice must not be counted twice.
+func ZZ_C01_inputs() {
+	tx, _, params := zzC01tx(common2.TransferAsset, nd.Choose("k", 2)+1, 0)
+	values := []int64{nd.I64("utxo0"), nd.I64("utxo1")}
+	for _, v := range values {
+		nd.Assume(v >= 0 && v <= zzMaxSupplySela)
+	}
+	refs := map[*common2.Input]common2.Output{}
+	var ins []*common2.Input
+	named := [2]bool{}
+	for j, zzn := 0, nd.Choose("inputs", 2)+2; j < zzn; j++ {
+		u := nd.Choose("names", 2)
+		named[u] = true
+		inp := &common2.Input{Sequence: nd.U32("sequence")}
+		inp.Previous.TxID = common.Uint256{0xA7}
+		inp.Previous.Index = uint16(u)
+		refs[inp] = common2.Output{AssetID: core.ELAAssetID, Value: common.Fixed64(values[u])}
+		ins = append(ins, inp)
+	}
+	tx.SetInputs(ins)
+	if tx.CheckTransactionInput() != nil {
+		return
+	}
+	if tx.CheckTransactionOutput() != nil {
+		return
+	}
+	if checkAssetPrecision(tx) != nil {
+		return
+	}
+	if tx.CheckTransactionFee(refs) != nil {
+		return
+	}
+	nd.Reach("accepted")
+	var sumOut, sumIn zzU128
+	for _, o := range tx.Outputs() {
+		sumOut = sumOut.add(uint64(o.Value))
+	}
+	sumOut = sumOut.add(uint64(params.Config.MinTransactionFee))
+	for u := range named {
+		if named[u] {
+			sumIn = sumIn.add(uint64(values[u]))
+		}
+	}
+	nd.Assert(sumOut.le(sumIn), "outputs_plus_fee_le_the_distinct_utxos_spent")
+}
